@@ -123,6 +123,13 @@ theorem group_unpaired_reader_fields :
     (greader.filter fun r => !r.post.isOpaque && decide (0 ≤ r.idx) && r.arr != "XGRP" && (gpairs gwriter [r]).isEmpty).map (·.field)
       = ["group.glift_max_supply", "group.glift_max_rate"] := by decide +kernel
 
+/-- Every IGRP / SGRP member with a stated meaning receives only the source quantity of that meaning, written by the
+function of its own phase (an item swapped on the writer or the reader side only breaks this). -/
+theorem group_source_meanings :
+    ∀ p ∈ gpairs gwriter greader, ∀ allowed, groupSourceMeaning.lookup p.2.field = some allowed →
+      p.1.src ∈ allowed ∧ (groupPhaseOfFn p.1.fn = "any" ∨ groupPhaseOfField p.2.field = "any" ∨ groupPhaseOfFn p.1.fn = groupPhaseOfField p.2.field) := by
+  decide +kernel
+
 /-- XGRP members of RstGroup whose item, vector or measure disagrees with the writer's key map, with the reason. -/
 def xdeclaredExceptions : List (String × XCls) :=
   [("group.liquid_production_rate", .wrongVector),     -- item 3 (LiqPrRate) holds GVPR / FVPR, not GLPR
